@@ -111,6 +111,28 @@ def run(case, out):
         if gs != want:
             d = sorted(gs ^ want)
             out.fail(op + ":set", symbol=list(d[0]), in_reference=d[0] in want)
+    # the same queries on grammars the library built itself (their productions are lists, with repetitions): the
+    # reference is the extraction of that grammar
+    for tr in ("eliminate_unit_productions", "remove_epsilon", "remove_useless_symbols"):
+        r = out.call(tr + "(first)", getattr(G.build(case), tr))
+        if r is FAILED:
+            continue
+        rr = G.extract(r)
+        if rr.start is None:
+            continue
+        got = out.call(tr + ".is_empty", r.is_empty)
+        if got is not FAILED and bool(got) != rr.is_empty():
+            out.fail(tr + ".is_empty:verdict", want=rr.is_empty(), got=got)
+        for op, want in (("get_generating_symbols", rr.generating()), ("get_nullable_symbols", rr.nullable()),
+                         ("get_reachable_symbols", rr.reachable())):
+            got = out.call(tr + "." + op, getattr(r, op))
+            if got is FAILED:
+                continue
+            gs = {G.lib_sym(x) for x in got}
+            if gs != want:
+                d = sorted(gs ^ want)
+                out.fail(tr + "." + op + ":set", symbol=list(d[0]), in_reference=d[0] in want)
+        out.probe("queries_on_a_transformed_grammar")
     base_ok = {}
     for n in case["bounds"]:
         want = ref.words_upto(n)
